@@ -284,6 +284,91 @@ pub fn check_report(gl: &GenLedger, obs: &mut Obs) -> Verdict {
     Verdict::Pass
 }
 
+// ---------- the same with foreign currencies, zero optional clauses labelled in any currency ----------
+
+#[derive(Clone, Debug, Serialize, Deserialize)]
+pub struct FxReportCase {
+    pub gl: GenLedger,
+    pub cur: Vec<u8>,
+}
+
+const RULE_REPORT_FX: &str = "as ledger_dsl_json_reports, ledgers 2015-2024 whose every monetary field independently is GBP, one of ten rated currencies, or (zero FEES/TAX amounts only) XAU, for which no rate exists: a zero fee or tax may lose only its currency label when written as DSL, so ledger, DSL rendering and JSON rendering must still give the same outcome (bundled rates); non-trivial = a zero optional amount carries a foreign label, or the ledger has a disposal; distinct by DSL hash";
+
+fn strat_ledger_fx(t: Tier) -> BoxedStrategy<FxReportCase> {
+    (lgen::ledger_strategy(GenCfg::basic().secs(2).days(2, t.pick(10, 20)).splits(SplitMode::Terminating).events(true).dividends(true).years(2015, 2024)), proptest::collection::vec(0u8..20, 16))
+        .prop_map(|(gl, cur)| FxReportCase { gl, cur })
+        .boxed()
+}
+
+pub fn check_report_fx(c: &FxReportCase, obs: &mut Obs) -> Verdict {
+    const CURS: [&str; 10] = ["USD", "EUR", "JPY", "CHF", "AUD", "CAD", "INR", "ZAR", "SEK", "HKD"];
+    let mut ledger = c.gl.ledger.clone();
+    let mut k = 0usize;
+    let mut zero_labelled = false;
+    for t in ledger.iter_mut() {
+        for (slot, m) in t.monies_mut().into_iter().enumerate() {
+            let sel = if c.cur.is_empty() { 0 } else { c.cur[k % c.cur.len()] };
+            k += 1;
+            if sel >= 10 {
+                // second money field of a line = its optional FEES/TAX clause
+                if slot == 1 && m.a.is_zero() {
+                    m.c = if sel % 2 == 0 { "XAU".to_string() } else { CURS[(sel as usize - 10) % 10].to_string() };
+                    zero_labelled = true;
+                } else {
+                    m.c = CURS[(sel as usize - 10) % 10].to_string();
+                }
+            }
+        }
+    }
+    let txs = crate::led::to_core(&ledger);
+    let dsl = transactions_to_dsl(&txs);
+    obs.hash = crate::led::hash_str(&format!("{dsl}#{:?}", txs.iter().map(|t| format!("{:?}", t.operation)).collect::<Vec<_>>()));
+    if obs.sample.is_none() && zero_labelled {
+        obs.sample = Some(tool::sample_of(&ledger));
+    }
+    obs.class_if(zero_labelled, "zero_optional_amount_with_foreign_label");
+    let cfg = tool::all_years_config();
+    let fx = crate::props::c15::fx();
+    let run = |l: &[crate::led::Tx]| tool::calc_with(l, None, Some(fx), &cfg);
+    let r0 = run(&ledger);
+    let via_dsl = match parse_file(&dsl) {
+        Ok(v) => v,
+        Err(e) => return Verdict::fail(format!("DSL of a generated ledger does not parse: {e}")),
+    };
+    let json = serde_json::to_string_pretty(&txs).unwrap_or_default();
+    let via_json: Vec<Transaction> = match serde_json::from_str(&json) {
+        Ok(v) => v,
+        Err(e) => return Verdict::fail(format!("JSON of a generated ledger rejected: {e}")),
+    };
+    let r1 = run(&crate::led::from_core(&via_dsl));
+    let r2 = run(&crate::led::from_core(&via_json));
+    for (name, r) in [("DSL", &r1), ("JSON", &r2)] {
+        match (&r0, r) {
+            (Outcome::Ok(a), Outcome::Ok(b)) => {
+                obs.nontrivial = zero_labelled || a.tax_years.iter().any(|y| !y.disposals.is_empty());
+                let mut a2 = a.clone();
+                let mut b2 = b.clone();
+                a2.transactions.clear();
+                b2.transactions.clear();
+                if a2 != b2 {
+                    let mut o = Obs::default();
+                    let why = tool::reports_equivalent(a, b, &mut o).err().unwrap_or_else(|| "not bit-identical".into());
+                    return Verdict::fail(format!("report via {name} differs: {why}\n{dsl}"));
+                }
+            }
+            (Outcome::Err(x), Outcome::Err(y)) => {
+                obs.nontrivial = zero_labelled;
+                if x.to_string() != y.to_string() {
+                    return Verdict::fail(format!("error via {name} differs: {x} vs {y}\n{}", crate::led::to_dsl(&ledger)));
+                }
+            }
+            (Outcome::Panic(p), _) | (_, Outcome::Panic(p)) if p.is_decimal_overflow() => return Verdict::Pass,
+            (a, b) => return Verdict::fail(format!("outcome of the ledger and of its {name} rendering differ: {} vs {}\n--- ledger ---\n{}\n--- its DSL rendering ---\n{dsl}", a.describe(), b.describe(), crate::led::to_dsl(&ledger))),
+        }
+    }
+    Verdict::Pass
+}
+
 fn strat(t: Tier) -> BoxedStrategy<Case> {
     proptest::collection::vec(arb_tx_wide(), 1..t.pick(8, 20)).prop_map(|txs| Case { txs }).boxed()
 }
@@ -295,6 +380,9 @@ fn run(ctx: &Ctx) {
     if !ctx.run_prop("ledger_dsl_json_reports", RULE_REPORT, ctx.cases(1200, 400_000), strat_ledger, check_report) {
         return;
     }
+    if !ctx.run_prop("ledger_dsl_json_reports_fx", RULE_REPORT_FX, ctx.cases(600, 200_000), strat_ledger_fx, check_report_fx) {
+        return;
+    }
     crate::props::proc_checks::c14_mcp(ctx);
 }
 
@@ -302,6 +390,7 @@ fn replay(name: &str, case: &Value) -> Option<Verdict> {
     match name {
         "arbitrary_lists" => Some(replay_case::<Case, _>(case, check).unwrap_or_else(Verdict::Fail)),
         "ledger_dsl_json_reports" => Some(replay_case::<GenLedger, _>(case, check_report).unwrap_or_else(Verdict::Fail)),
+        "ledger_dsl_json_reports_fx" => Some(replay_case::<FxReportCase, _>(case, check_report_fx).unwrap_or_else(Verdict::Fail)),
         other => crate::props::proc_checks::replay(other, case),
     }
 }
